@@ -4,8 +4,10 @@
 //! listeners, `handle_cmd(WorkerFaulted)` restarting a worker).  Public API only; events carry a global sequence
 //! number taken under one mutex.
 //!
-//! Scenario: {"name":..,"workers":W,"limit":L,"uds":bool,"steps":[STEP..]}
-//! STEP: {"do":"connect","l":"a"|"b","n":k}      k clients connect to listener a (TCP) / b (UDS or 2nd TCP)
+//! Scenario: {"name":..,"workers":W,"limit":L,"uds":bool,"multi":bool,"steps":[STEP..]}
+//!   multi: between a and b a third service "c" is registered with `bind("c", [addr1, addr2])` - ONE name and factory,
+//!   TWO sockets (tokens 1 and 2, b gets 3): the token <-> factory <-> socket bookkeeping of ServerBuilder
+//! STEP: {"do":"connect","l":"a"|"b"|"c1"|"c2","n":k}   k clients connect to listener a (TCP) / b (UDS or 2nd TCP) / c's sockets
 //!       {"do":"await_started","count":n,"ms":3000}   wait until n connections in total have reached a service
 //!       {"do":"await_finished","count":n,"ms":3000}
 //!       {"do":"release","c":id} | {"do":"release_all"}
@@ -85,6 +87,7 @@ pub fn run_scenario(sc: &Value, dir: &str) -> Vec<Value> {
     let workers = sc["workers"].as_u64().unwrap_or(1) as usize;
     let limit = sc["limit"].as_u64().unwrap_or(1) as usize;
     let uds = sc["uds"].as_bool().unwrap_or(false);
+    let multi = sc["multi"].as_bool().unwrap_or(false);
     let sh = Arc::new(Shared {
         log: log.clone(),
         release: (0..256).map(|_| AtomicBool::new(false)).collect(),
@@ -122,6 +125,22 @@ pub fn run_scenario(sc: &Value, dir: &str) -> Vec<Value> {
                     })
                 })
                 .unwrap();
+            let mut addr_c = vec![];
+            if multi {
+                // two free loopback ports (picked, released, then bound by the builder itself)
+                for _ in 0..2 {
+                    let l = std::net::TcpListener::bind("127.0.0.1:0").unwrap();
+                    addr_c.push(l.local_addr().unwrap());
+                }
+                let sc_ = sh2.clone();
+                b = b
+                    .bind("c", &addr_c[..], move || {
+                        let s = sc_.clone();
+                        s.log.emit(json!({"e": "FactoryNew", "tag": "c", "thread": format!("{:?}", thread::current().id())}));
+                        fn_service(move |stream: TcpStream| serve(stream, "c", s.clone()))
+                    })
+                    .unwrap();
+            }
             let mut addr_b = None;
             if uds {
                 let sb = sh2.clone();
@@ -145,12 +164,12 @@ pub fn run_scenario(sc: &Value, dir: &str) -> Vec<Value> {
                     .unwrap();
             }
             let server = b.run();
-            tx.send((server.handle(), addr_a, addr_b)).unwrap();
+            tx.send((server.handle(), addr_a, addr_b, addr_c)).unwrap();
             let r = server.await;
             sh2.log.emit(json!({"e": "ServerResolved", "ok": r.is_ok()}));
         });
     });
-    let (handle, addr_a, addr_b) = rx.recv_timeout(Duration::from_secs(10)).expect("server start");
+    let (handle, addr_a, addr_b, addr_c) = rx.recv_timeout(Duration::from_secs(10)).expect("server start");
     let rt = tokio::runtime::Builder::new_current_thread().enable_all().build().unwrap();
 
     let mut clients: Vec<Client> = vec![];
@@ -175,7 +194,12 @@ pub fn run_scenario(sc: &Value, dir: &str) -> Vec<Value> {
                     let r: std::io::Result<Client> = if to_b && uds {
                         StdUnixStream::connect(&uds_path).and_then(|mut s| s.write_all(&[id]).map(|_| Client::Uds(s)))
                     } else {
-                        let addr = if to_b { addr_b.unwrap() } else { addr_a };
+                        let addr = match st["l"].as_str() {
+                            Some("c1") => addr_c[0],
+                            Some("c2") => addr_c[1],
+                            _ if to_b => addr_b.unwrap(),
+                            _ => addr_a,
+                        };
                         StdTcpStream::connect(addr).and_then(|mut s| s.write_all(&[id]).map(|_| Client::Tcp(s)))
                     };
                     match r {
@@ -274,7 +298,8 @@ pub fn project(run: usize, sc: &Value, events: &[Value]) -> Vec<Value> {
                 if started.iter().any(|s| s[0] == json!(c)) {
                     dup = true;
                 }
-                if connected.get(&c).map(|l| l.as_str()) != e["tag"].as_str() {
+                let want = connected.get(&c).map(|l| if l.starts_with('c') { "c" } else { l.as_str() });
+                if want != e["tag"].as_str() {
                     wrong_tag = true;
                 }
                 started.push(json!([c, e["tag"]]));
